@@ -68,4 +68,17 @@ PROPS = {
         ],
         "assumptions": ["ties on the greatest timestamp: the rebuilt head names the key last in table order, the maintained head the key inserted last; both carry the same timestamp"],
     },
+    "C01": {
+        "lean_modules": ["DocsModel.Props.C01"],
+        "trusted_base": COMMON_TRUST + [
+            "redb tables modelled as sorted lists (range = in-order filter by the bounds)",
+            "BLAKE3 entry fingerprints are supplied by the harness with each entry; the model XORs them as the code does",
+            "hooks H1 (clock), H2 (reconciliation parameter override), H2c (subscribe to a replica to observe inserted entries)",
+        ],
+        "assumptions": [
+            "messages are delivered intact and in order; every entry passes both sides' validation",
+            "PayloadFunctional (F11 excluded)",
+            "convergence of a complete session to the join, termination within the message budget and the silent second session are checked by the correspondence harness against the specification on every run; the Lean theorems proved so far are counts_mirror, join_absorbs, equal_replicas_first_message_is_last, join_entry_always_accepted, join_entry_never_removed",
+        ],
+    },
 }
